@@ -102,9 +102,28 @@ def _work(job):
             out['verdict'], out['by'] = 'refuted', 'z3-ground'
             out['model'] = model
             return out
-    r, t, reason, model = _run_z3(smt, z3_to)
+    quick_to = min(4000, z3_to)
+    r, t, reason, model = _run_z3(smt, quick_to)
     out['backends'].append(dict(solver='z3', result=r, time_s=round(t, 3),
                                 reason=reason))
+    if r == 'unknown' and not fp:
+        # cheap second opinion before spending the full z3 budget
+        r3, t3, reason3, model3, stats = _run_ground(smt, z3_to)
+        out['backends'].append(dict(solver='z3-ground', result=r3,
+                                    time_s=round(t3, 3), reason=reason3,
+                                    stats=stats))
+        if r3 == 'unsat':
+            out['verdict'], out['by'] = 'discharged', 'z3-ground'
+            if not use_cvc5_always:
+                return out
+        elif r3 == 'sat':
+            out['verdict'], out['by'] = 'refuted', 'z3-ground'
+            out['model'] = model3
+            return out
+        if r3 == 'unknown' and z3_to > quick_to:
+            r, t, reason, model = _run_z3(smt, z3_to)
+            out['backends'].append(dict(solver='z3', result=r,
+                                        time_s=round(t, 3), reason=reason))
     verdict = {'unsat': 'discharged', 'sat': 'refuted'}.get(r, 'unknown')
     by = 'z3' if verdict != 'unknown' else None
     if verdict == 'refuted':
@@ -116,20 +135,14 @@ def _work(job):
         if verdict == 'unknown' and r2 == 'unsat':
             verdict, by = 'discharged', 'cvc5'
         elif verdict == 'unknown' and r2 == 'sat':
+            if out.get('verdict') == 'discharged':
+                out['disagreement'] = True
             verdict, by = 'refuted', 'cvc5'
         elif verdict != 'unknown' and r2 in ('sat', 'unsat') and \
                 {'unsat': 'discharged', 'sat': 'refuted'}[r2] != verdict:
             out['disagreement'] = True
-    if verdict == 'unknown' and not fp:
-        r3, t3, reason3, model3, stats = _run_ground(smt, z3_to)
-        out['backends'].append(dict(solver='z3-ground', result=r3,
-                                    time_s=round(t3, 3), reason=reason3,
-                                    stats=stats))
-        if r3 == 'unsat':
-            verdict, by = 'discharged', 'z3-ground'
-        elif r3 == 'sat':
-            verdict, by = 'refuted', 'z3-ground'
-            out['model'] = model3
+    if verdict == 'unknown' and out.get('verdict') == 'discharged':
+        verdict, by = 'discharged', out['by']
     out['verdict'] = verdict
     out['by'] = by
     return out
